@@ -80,7 +80,30 @@ let predict (f : (string * string) list) : (pred, string) result =
   | Result.Error e -> Result.Error e
   | Result.Ok (frames, st, tr) ->
     let k = List.length frames in
-    let refused = if burst then burst_refused (nat_of_int c.s_maxc) (nat_of_int k) else List.map (fun _ -> false) frames in
+    (* in-flight counter: the queries arrive in bursts (phases=k1,k2,..; default one burst of all); within a burst no
+       handler finishes, between bursts all running handlers finish *)
+    let refused =
+      if not burst then List.map (fun _ -> false) frames else begin
+        let phases = (match fld_opt f "phases" with
+          | Some p when p <> "-" -> List.map int_of_string (String.split_on_char ',' p) | _ -> [k]) in
+        (* build the event list incrementally so that the finishes name exactly the admitted queries *)
+        let lim = nat_of_int c.s_maxc in
+        let rec go st base ph acc = match ph with
+          | [] -> List.rev acc
+          | n :: rest ->
+            let arr = List.init n (fun i -> InflArrive (nat_of_int (base + i))) in
+            (match infl_run lim st arr with
+             | Some (st1, outs) ->
+               let flags = List.filter_map (fun o -> match o with InflRefused _ -> Some true | InflAdmitted _ -> Some false | _ -> None) outs in
+               let fin = List.map (fun q -> InflFinish q) st1.infl_fl in
+               (match infl_run lim st1 fin with
+                | Some (st2, _) -> go st2 (base + n) rest (List.rev_append flags acc)
+                | None -> failwith "counter model: finish of a query not in flight")
+             | None -> failwith "counter model")
+        in
+        let fl = go infl_init 0 phases [] in
+        if List.length fl = k then fl else List.map (fun _ -> false) frames
+      end in
     let client = A4 [n_of_int 127; n_of_int 0; n_of_int 0; n_of_int 1] in
     let spec = ref "ok" in
     let unscripted = ref false in
